@@ -71,6 +71,19 @@ func vmVars(vm *ds.Context) (map[string]Val, string) {
 				val.A = append(val.A, int64(i))
 			}
 			out[k] = val
+		case ds.VMTypeDict:
+			val := Val{K: 'd', D: map[string]int64{}}
+			if dd, ok := v.ReadDictData(); ok && dd != nil {
+				dd.Dict.Range(func(dk string, dv *ds.VMValue) bool {
+					i, ok := dv.ReadInt()
+					if !ok {
+						bad = k
+					}
+					val.D[dk] = int64(i)
+					return true
+				})
+			}
+			out[k] = val
 		case ds.VMTypeFunction:
 			// function definitions are not part of the compared state (they are judged by their calls)
 		default:
